@@ -525,7 +525,9 @@ theorem final_root (hf : HashFn α H) (f : Nat → α) (N : Nat) (s : Segment α
     simp only [List.length_range', List.length_nil] at this
     have := le_mmr (finalLeaves s.id N)
     omega
-  unfold Segment.root
+  have hex : s.id.unprunedSize (mmr N) ≠ 0 := by
+    rw [(final_arith s.id N v).2.2.1]; unfold finalLeaves; have := v.lo; omega
+  rw [root_of_nonempty hf s (mmr N) none hex]
   rw [final_positions s.id N v] at hleaves ⊢
   rw [(final_arith s.id N v).2.2.2.1, final_peaksIn s.id N v]
   exact rootWith_tiles hf s (mmr N) f _
